@@ -330,6 +330,9 @@ func runCheck(o checkOpts) *checkResult {
 		_ = a
 	}
 	assumptions = append(assumptions, propAssumptions(o.verif, o.prop)...)
+	if assumptions == nil {
+		assumptions = []string{}
+	}
 	res.evidence = map[string]interface{}{
 		"property_id": o.prop, "tier": o.tier, "seed": o.seed, "level": levelOf(o.prop),
 		"coverage": map[string]interface{}{
@@ -359,7 +362,7 @@ func levelOf(prop string) string {
 }
 
 func namesOf(os []*Obligation) []string {
-	var r []string
+	r := []string{}
 	for _, o := range os {
 		r = append(r, o.Name+" ("+o.Status+")")
 	}
